@@ -146,6 +146,12 @@ func targetsAreOrdered(graph *dag.DirectedTargetGraph, a, b model.BuildNode, anc
 		ancestorCache = make(map[label.TargetLabel]map[label.TargetLabel]struct{})
 	}
 
+	// A target cannot race with itself: overlapping outputs of a single target
+	// (e.g. a bin_output inside its own directory output) are not a conflict.
+	if a.GetLabel() == b.GetLabel() {
+		return true
+	}
+
 	ancestorsOfA := getAncestorSet(graph, a, ancestorCache)
 	if _, ok := ancestorsOfA[b.GetLabel()]; ok {
 		return true
